@@ -9,7 +9,7 @@ func H_C14_connlimiter() {
 	l := &connLimiter{limit: vInt("limit"), inUse: vInt("inUse")}
 	vAssume(l.limit >= 0)
 	vAssume(l.inUse >= 0)
-	vAssume(l.inUse < 1<<40) // far below the counter's width
+	vAssume(l.inUse < 1<<40)                    // far below the counter's width
 	vAssume(l.limit == 0 || l.inUse <= l.limit) // representation invariant
 	pre := l.inUse
 	switch vChoice("op", 2) {
